@@ -99,6 +99,49 @@ def build(quiet=True):
         lock.close()
 
 
+def build_driver():
+    """(Re)build sim/session_driver against the repo's current working tree (library API lane of C14 / C15)."""
+    src = os.path.join(VERIF, "sim", "session_driver")
+    work = os.path.join(CACHE, "session_driver")
+    os.makedirs(os.path.join(work, "src"), exist_ok=True)
+    with open(os.path.join(src, "Cargo.toml")) as f:
+        manifest = f.read().replace("REPO_PATH", REPO)
+    _write_if_changed(os.path.join(work, "Cargo.toml"), manifest)
+    for name in ("Cargo.lock", "rust-toolchain"):
+        with open(os.path.join(REPO, name)) as f:
+            _write_if_changed(os.path.join(work, name), f.read())
+    with open(os.path.join(src, "src", "main.rs")) as f:
+        _write_if_changed(os.path.join(work, "src", "main.rs"), f.read())
+    lock = open(os.path.join(CACHE, "build.lock"), "w")
+    fcntl.flock(lock, fcntl.LOCK_EX)
+    try:
+        env = dict(os.environ)
+        env["CARGO_NET_OFFLINE"] = "true"
+        env["RUSTFLAGS"] = "--cfg " + GUARD
+        env["CARGO_TARGET_DIR"] = os.path.join(CACHE, "target-driver")
+        r = subprocess.run(["cargo", "build", "--offline"], cwd=work, env=env, capture_output=True, text=True)
+        if r.returncode != 0:
+            raise HarnessError("session-driver build failed:\n" + r.stderr[-3000:])
+    finally:
+        fcntl.flock(lock, fcntl.LOCK_UN)
+        lock.close()
+    return os.path.join(CACHE, "target-driver", "debug", "session-driver")
+
+
+def _write_if_changed(path, text):
+    try:
+        with open(path) as f:
+            if f.read() == text:
+                return
+    except OSError:
+        pass
+    with open(path, "w") as f:
+        f.write(text)
+
+
+DRIVER = os.path.join(CACHE, "target-driver", "debug", "session-driver")
+
+
 # --------------------------------------------------------------------------- worlds
 
 _scratch_n = 0
